@@ -105,10 +105,50 @@ def run(chk, tier, overlays=()):
             ok = ok and p is None
     chk.judge(ok, "EFFECT", "getNextRandom:buffer-read-after-refill-or-index-check", gn.loc, "the buffer is read only after the nextIndex test (refill when exhausted)")
     chk.floor("EFFECT", 12)
+    derived(chk, P, classes)
+    chk.floor("DERIVED", 3)
+
+
+def derived(chk, P, classes):
+    """cached derived fields: F is derived when every assignment to it in the class's methods has one and the same right-hand side built from other fields of the class"""
+    chk.rule("DERIVED", "range bookkeeping: a field that the class always assigns as one and the same expression of its other fields (Uniform: range = max - min) is a cache of "
+             "those fields; every method that writes one of the source fields re-assigns the derived field with that expression AFTER the write on every path, and the value "
+             "producer reads the derived field (values lie in [min, min+range) = [min, max))")
+    n = 0
+    for cls in classes:
+        ms = [f for f in P.methods_of(cls) if f.kind not in ("ctor", "dtor")]
+        asg = {}
+        for f in ms:
+            for b, i, e in f.events(lambda e: e["k"] == "assign" and e["op"] == "=" and field_of(e["lhs"]) and field_of(e["lhs"]).startswith(cls + "::") and e.get("rhs") is not None):
+                src = {y[2] for y in sx_find(e["rhs"], lambda y: y[0] == "mem" and y[2].startswith(cls + "::"))}
+                if src and not sx_find(e["rhs"], lambda y: y[0] == "var"):
+                    asg.setdefault(field_of(e["lhs"]), []).append((f, b, i, e, frozenset(src)))
+        for fld, lst in sorted(asg.items()):
+            shapes = {sx_str(e["rhs"]) for _, _, _, e, _ in lst}
+            if len(lst) < 2 or len(shapes) != 1:
+                continue
+            srcs = lst[0][4]
+            shape = next(iter(shapes))
+            short = "%s:%s=%s" % (cls.split("::")[-1], fld.split("::")[-1], shape.replace("this.", ""))
+            for f in ms:
+                ws = [(b, i, e) for b, i, e in f.events(lambda e: e["k"] == "assign" and field_of(e["lhs"]) in srcs)]
+                for b, i, e in ws:
+                    n += 1
+                    p = f.path_exists((b, i), "exit", lambda q: q["k"] == "assign" and field_of(q["lhs"]) == fld and q.get("rhs") is not None and sx_str(q["rhs"]) == shape)
+                    chk.judge(p is None, "DERIVED", "%s:recomputed-after-%s::%s" % (short, f.name.split("::")[-1], field_of(e["lhs"]).split("::")[-1]), "%s:%d" % (f.file, e["line"]),
+                              "%s writes %s; %s must be recomputed afterwards on every path" % (f.name.split("::")[-1], field_of(e["lhs"]).split("::")[-1], fld.split("::")[-1]), p)
+            # the producer uses the cache
+            for f in ms:
+                if f.name.split("::")[-1] == "getValue":
+                    n += 1
+                    chk.judge(any(e["k"] == "mem" and e["field"] == fld for _, _, e in f.events()), "DERIVED", short + ":used-by-getValue", f.loc, "getValue reads %s" % fld.split("::")[-1])
+    chk.judge(n >= 3, "DERIVED", "derived-field-sites>=3", "", "%d obligations generated (Uniform's range expected)" % n)
 
 
 _R = "SimTKcommon/Random/src/Random.cpp"
 MUTATIONS = [
+    dict(name="seeded (sub-agent): setMin recomputes the range before storing the new minimum", arm=True, file=_R,
+         old="        min = value;\n        range = max-min;", new="        range = max-min;\n        min = value;", expect="DERIVED:UniformImpl:range"),
     dict(name="Gaussian setSeed keeps the saved deviate", arm=True, file=_R,
          old="        RandomImpl::setSeed(seed);\n        nextGaussianIsValid = false;", new="        RandomImpl::setSeed(seed);", expect="nextGaussian"),
     dict(name="setSeed keeps the buffered values", arm=True, file=_R,
